@@ -50,6 +50,17 @@ def classify(case, outs, got, stuck=False):
     return None
 
 
+def lost_branch_metadata(run, arn):
+    """The one prompt symptom of the same listed finding: after a handled fan-out failure check_pending_results deleted the branch metadata
+    of the whole execution while a sibling was about to enter a nested Map/Parallel state; its deferred delegate then fails on
+    branch_metadata[execution_arn] (KeyError) and the execution is failed with States.Runtime whose cause ends in the quoted execution ARN."""
+    for n in run.world.terminal_notifications(arn):
+        d = n["body"]["detail"]
+        if d.get("error") == "States.Runtime" and str(d.get("cause") or "").rstrip().endswith("'%s'" % arn):
+            return True
+    return False
+
+
 def compare(ctx, case, tag="gen", policy=None):
     ctx.evaluation()
     try:
@@ -94,7 +105,8 @@ def compare(ctx, case, tag="gen", policy=None):
         elif not ok:
             ctx.violation("outcome-not-admissible", S.witness_of(run, dict(expected=[repr(o) for o in outs[:4]], engine=[st, out, err], family=tag,
                                                                         ref_facts=outs[0].facts)),
-                          classify(case, outs, (st, out, err), stuck=(st == "NONE" or (err == "States.Timeout" and t is not None and t >= 1_700_000_000 + run.world.execution_ttl))))
+                          classify(case, outs, (st, out, err), stuck=(st == "NONE" or (err == "States.Timeout" and t is not None and t >= 1_700_000_000 + run.world.execution_ttl)
+                                                                      or lost_branch_metadata(run, arn))))
         elif not rec_ok:
             ctx.violation("record-disagrees-with-notification", S.witness_of(run, dict(record=rec, engine=[st, out, err])), None)
         return ok
